@@ -66,7 +66,7 @@ func c19Source(kind string, version int) string {
 }
 
 func c19Post(port, version int) (int, string, error) {
-	cl := &http.Client{Timeout: 3 * time.Second, Transport: &http.Transport{DisableKeepAlives: true}}
+	cl := &http.Client{Timeout: evid.Stretch(3 * time.Second), Transport: &http.Transport{DisableKeepAlives: true}}
 	resp, err := cl.Post(fmt.Sprintf("http://127.0.0.1:%d/t", port), "application/json", strings.NewReader(fmt.Sprintf(`{"f%d": 1}`, version%2)))
 	if err != nil {
 		return 0, "", err
@@ -79,7 +79,7 @@ func c19Post(port, version int) (int, string, error) {
 var c19Seq int64
 
 func c19Get(port int) (int, string, error) {
-	cl := &http.Client{Timeout: 3 * time.Second, Transport: &http.Transport{DisableKeepAlives: true}}
+	cl := &http.Client{Timeout: evid.Stretch(3 * time.Second), Transport: &http.Transport{DisableKeepAlives: true}}
 	resp, err := cl.Get(fmt.Sprintf("http://127.0.0.1:%d/v", port))
 	if err != nil {
 		return 0, "", err
